@@ -9,17 +9,19 @@ def main(tier, replay=None):
     M = "monitors=C03"
     q = tier == "quick"
     fams = [
-        dict(name="outcomes-l1r1", opts=[M, "msgs=l1r1"], bounds="0,0,0,%d" % (2 if q else 3), total=3),
-        dict(name="outcomes-l3-saturated", opts=[M, "msgs=l6", "concl=2", "announce=2", "signals=0"], bounds="0,0,0,%d" % (1 if q else 2), total=2),
-        dict(name="outcomes-senders", opts=[M, "msgs=verp+empty+dbl", "signals=0"], bounds="0,0,0,%d" % (2 if q else 3), total=3),
-        dict(name="lost-spawner-l1r1", opts=[M, "msgs=l1r1", "signals=0", "verdicts=KZDE", "reorder=2"], bounds="0,0,0,%d" % (2 if q else 3), total=3),
-        dict(name="lost-spawner-l2-r2", opts=[M, "msgs=l2+r2", "signals=0", "verdicts=KDE", "reorder=2"], bounds="0,0,0,2", total=2, tier="thorough"),
-        dict(name="stray-and-mangled-reports-l1r1", opts=[M, "msgs=l1r1", "signals=0", "verdicts=KZDghueOQ", "reorder=2"], bounds="0,0,0,%d" % (2 if q else 3), total=3),
-        dict(name="crash-l1r1", opts=[M, "msgs=l1r1"], bounds="0,0,1,1", total=2),
-        dict(name="crash-l2-bounces", opts=[M, "msgs=l2", "signals=0"], bounds="0,0,1,2", total=3 if not q else 2, deadline=900),
-        dict(name="faults-l1r1", opts=[M, "msgs=l1r1", "signals=0"], bounds="0,1,0,1", total=2),
-        dict(name="faults-l2-bounces", opts=[M, "msgs=l2", "signals=0"], bounds="0,1,0,%d" % (2 if q else 3), total=3, deadline=900),
-        dict(name="crash-two-messages", opts=[M, "msgs=l1+r2", "signals=0"], bounds="0,0,1,1", total=2, tier="thorough"),
+        dict(name="outcomes-l1r1", opts=[M, "msgs=l1r1"], bounds="0,0,0,%d" % (2 if q else 4), total=4, deadline=1800),
+        dict(name="outcomes-l3-saturated", opts=[M, "msgs=l6", "concl=2", "announce=2", "signals=0"], bounds="0,0,0,%d" % (1 if q else 3), total=3, deadline=1800),
+        dict(name="outcomes-senders", opts=[M, "msgs=verp+empty+dbl", "signals=0"], bounds="0,0,0,%d" % (2 if q else 4), total=4, deadline=1800),
+        dict(name="lost-spawner-l1r1", opts=[M, "msgs=l1r1", "signals=0", "verdicts=KZDE", "reorder=2"], bounds="0,0,0,%d" % (2 if q else 4), total=4, deadline=1800),
+        dict(name="lost-spawner-l2-r2", opts=[M, "msgs=l2+r2", "signals=0", "verdicts=KDE", "reorder=2"], bounds="0,0,0,3", total=3, tier="thorough", deadline=1800),
+        dict(name="stray-and-mangled-reports-l1r1", opts=[M, "msgs=l1r1", "signals=0", "verdicts=KZDghueOQ", "reorder=2"], bounds="0,0,0,%d" % (2 if q else 3), total=3, deadline=1800),
+        dict(name="crash-l1r1", opts=[M, "msgs=l1r1"], bounds="0,0,1,%d" % (1 if q else 2), total=2 if q else 3, deadline=1800),
+        dict(name="two-crashes-l1r1", opts=[M, "msgs=l1r1", "signals=0"], bounds="0,0,2,0", total=2, tier="thorough", deadline=1800),
+        dict(name="crash-l2-bounces", opts=[M, "msgs=l2", "signals=0"], bounds="0,0,1,%d" % (2 if q else 3), total=2 if q else 4, deadline=1800),
+        dict(name="faults-l1r1", opts=[M, "msgs=l1r1", "signals=0"], bounds="0,%d,0,1" % (1 if q else 2), total=2 if q else 3, deadline=1800),
+        dict(name="faults-l2-bounces", opts=[M, "msgs=l2", "signals=0"], bounds="0,1,0,%d" % (2 if q else 3), total=3 if q else 4, deadline=1800),
+        dict(name="crash-two-messages", opts=[M, "msgs=l1+r2", "signals=0"], bounds="0,0,1,2", total=3, tier="thorough", deadline=1800),
+        dict(name="crash-and-fault-l1r1", opts=[M, "msgs=l1r1", "signals=0"], bounds="0,1,1,0", total=2, tier="thorough", deadline=1800),
     ]
     run_families(res, "C03", tier, fams)
     res.rule = ("each execution is a complete history of the real qmail-send + qmail-clean (+ qmail-queue for injections and bounces) under the "
